@@ -95,8 +95,9 @@ def run(tier, repo):
             if kind in ("Overflow(Shl)", "Overflow(Shr)"):
                 rhs = strip(node["b"])
                 bits = WIDTH.get(strip(node["a"]).get("ty"), 0)
-                ok = rhs.get("k") == "lit" and "v" in rhs and rhs["v"] < bits
-                rp.check(ok, "PANIC-SITE", key + "/" + text_key(node), where, "shift amount is not a constant smaller than the operand width", found=(rhs.get("v"), bits), why_ok="CONST-SHIFT: %s < %d" % (rhs.get("v"), bits))
+                amount = rhs.get("v") if rhs.get("k") == "lit" else (rhs.get("val") if rhs.get("k") == "path" else None)  # literal or named constant (value from rustc's const evaluation)
+                ok = amount is not None and 0 <= amount < bits
+                rp.check(ok, "PANIC-SITE", key + "/" + text_key(node), where, "shift amount is not a constant smaller than the operand width", found=(amount, bits), why_ok="CONST-SHIFT: %s < %d" % (amount, bits))
             elif kind in ("DivisionByZero", "RemainderByZero"):
                 rhs = strip(node["b"])
                 v = rhs.get("v") if rhs.get("k") == "lit" else rhs.get("val")
